@@ -52,9 +52,12 @@ mutants)
     [ -f "$PATCH" ] || { echo "$NAME: patch missing"; BAD=1; continue; }
     if [ -n "$(git -C $REPO status --porcelain)" ]; then echo "$REPO not clean"; exit 2; fi
     git -C $REPO apply "$PWD/$PATCH" || { echo "$NAME: does not apply"; BAD=1; continue; }
-    T="PASS"; ( cd $REPO && cargo test --workspace --no-fail-fast --offline ) > target/mutant_tests.log 2>&1 || T="FAIL"
+    T="PASS"
+    if [ "${SELFTEST_NOTESTS:-0}" = 1 ]; then T="-"; else ( cd $REPO && cargo test --workspace --no-fail-fast --offline ) > target/mutant_tests.log 2>&1 || T="FAIL"; fi
     printf "%-44s %-6s" "$NAME" "$T"
     for P in C05 C09 C11 C12 C15 C18; do
+      # SELFTEST_ONLY=<ID>: run only that check (the others print "-")
+      if [ -n "${SELFTEST_ONLY:-}" ] && [ "$P" != "$SELFTEST_ONLY" ]; then printf " %-4s" "-"; continue; fi
       E=$(echo "$EXPECT" | grep -oE "$P=[a-z]" | cut -d= -f2); E=${E:-s}   # y = must report, s = must stay silent, o = may report
       VERIF_RUNS="${SELFTEST_MUTANT_RUNS:-}" ; 
       if [ -n "${SELFTEST_MUTANT_RUNS:-}" ]; then VERIF_RUNS=$SELFTEST_MUTANT_RUNS ./check $P > target/mutant_$P.log 2>&1; else ./check $P > target/mutant_$P.log 2>&1; fi
